@@ -140,7 +140,16 @@ void ring_history(pbt::Source& src) {
             bool room = x.alloc && x.dq.size() < x.max;
             switch (op) {
             case 0: { // push_back family
-                if (!room) continue;
+                if (!room) {
+                    // full: slide the window (pop at the other end first) so that long histories wrap the cursors
+                    if (!x.alloc || x.max == 0) continue;
+                    PBT_LOG("b" << s << ".pop_front() [make room]\n");
+                    r.pop_front();
+                    x.dq.pop_front();
+                    x.b = (x.b + 1) & x.mask;
+                    if (x.b == 0) bwrap = true;
+                    pbt::label("pop_front");
+                }
                 int v = (int)src.range(0, 99);
                 unsigned how = (unsigned)src.range(0, 2);
                 PBT_LOG("b" << s << (how == 0 ? ".push_back(const& " : how == 1 ? ".push_back(&& " : ".emplace_back(") << v << ")\n");
@@ -158,7 +167,17 @@ void ring_history(pbt::Source& src) {
                 break;
             }
             case 1: { // push_front family
-                if (!room) continue;
+                if (!room) {
+                    if (!x.alloc || x.max == 0) continue;
+                    PBT_LOG("b" << s << ".pop_back() [make room]\n");
+                    r.pop_back();
+                    if (x.dq.size() > 1) pbt::label("pop_back_size>1");
+                    x.dq.pop_back();
+                    if (x.e == 0) ewrap = true;
+                    x.e = (x.e - 1) & x.mask;
+                    popped_back = true;
+                    pbt::label("pop_back");
+                }
                 int v = (int)src.range(0, 99);
                 unsigned how = (unsigned)src.range(0, 2);
                 PBT_LOG("b" << s << (how == 0 ? ".push_front(const& " : how == 1 ? ".push_front(&& " : ".emplace_front(") << v << ")\n");
